@@ -21,6 +21,7 @@ EXPLANATION = ("Transducer tables of the encoder loop bodies by abstract interpr
                "AST normal forms of the chart-row expressions; decision tables of the extract helpers; polynomial normal form of "
                "set_last_datetime.")
 ASSUMPTIONS = ["the state domain is the declared enum of each class (the thorough tier includes members the library never stores)"]
+EXHAUSTIVE = "thorough"  # the deciding tables range over the complete finite domain
 TECHNIQUE = "transducer/decision tables by abstract interpretation with polynomial normal forms + AST expression normalisation"
 
 ENCODERS = [
@@ -42,7 +43,24 @@ def encoder_parts(ctx, cls):
     return f, body[:i], lp, body[i + 1:]
 
 
-def list_kind(name):
+_KIND_BY_FUNC = {}
+
+
+def list_kind(name, func=None):
+    """Kind of an interval list.  Inside an encoder it is the position of the local in the returned tuple
+    (ready, working[, absence]) -- the documented return order -- so local names do not matter."""
+    if func is not None:
+        m = _KIND_BY_FUNC.get(id(func.node))
+        if m is None:
+            m = {}
+            rets = [n for n in ast.walk(func.node) if isinstance(n, ast.Return) and isinstance(n.value, ast.Tuple)]
+            if rets and all(isinstance(x, ast.Name) for x in rets[-1].value.elts):
+                for i, x in enumerate(rets[-1].value.elts):
+                    if i < 3:
+                        m[x.id] = ("ready", "working", "absence")[i]
+            _KIND_BY_FUNC[id(func.node)] = m
+        if name in m:
+            return m[name]
     for k in ("ready", "working", "absence"):
         if k in name:
             return k
@@ -61,11 +79,11 @@ def run_cell(ctx, f, stmts, env):
     return I.exec_block(stmts, st, Frame(f, ft, ()))
 
 
-def emissions(st):
+def emissions(st, func=None):
     out = []
     for e in flatten(st.trace):
         if isinstance(e, Mut) and e.attr.startswith("$") and e.op == "append":
-            out.append((list_kind(e.attr[1:]), e.args[0] if e.args else None))
+            out.append((list_kind(e.attr[1:], func), e.args[0] if e.args else None))
     return out
 
 
@@ -128,7 +146,7 @@ def r19_1(ctx):
                         ctx.violation(con0 + ":undetermined-cell", f.loc(lp), f"{cls} encoder: cell previous={prev}, state={cur}, run-open={known} is not determined ({len(outs)} paths)")
                         continue
                     st = outs[0][0]
-                    em = emissions(st)
+                    em = emissions(st, f)
                     table[cellkey] = (tuple((k, repr(v)) for k, v in em), repr(st.env.get(from_name)), repr(st.env.get(to_name)), repr(st.env.get(prevs[0])))
                     changed = prev != cur
                     # (iv) previous state always updated
@@ -159,7 +177,7 @@ def r19_1(ctx):
                 env.update({k: ListV([], True, "list") for k in lists})
                 outs = run_cell(ctx, f, post, env)
                 for st, ex in outs:
-                    em = emissions(st)
+                    em = emissions(st, f)
                     want = []
                     if known and prev in lmap:
                         want = [(lmap[prev], [Poly.sym("F"), Poly.sym("L") - Poly.sym("F") + Poly.sym("m")])]
@@ -173,7 +191,7 @@ def r19_1(ctx):
                     if not (isinstance(r, ListV) and len(r.items) == (3 if "absence" in lmap.values() else 2)):
                         ctx.violation(con0 + ":return-shape", f.loc(), f"{cls} encoder returns {r!r}")
         rets = [n for n in ast.walk(f.node) if isinstance(n, ast.Return)]
-        order = [list_kind(x.id) for x in rets[-1].value.elts] if rets and isinstance(rets[-1].value, ast.Tuple) and all(isinstance(x, ast.Name) for x in rets[-1].value.elts) else None
+        order = [list_kind(x.id, f) for x in rets[-1].value.elts] if rets and isinstance(rets[-1].value, ast.Tuple) and all(isinstance(x, ast.Name) for x in rets[-1].value.elts) else None
         if order != ["ready", "working", "absence"][: (3 if "absence" in lmap.values() else 2)]:
             ctx.violation(con0 + ":return-order", f.loc(), f"{cls} encoder returns its lists in order {order}")
         def strip_enum(x):
